@@ -13,7 +13,8 @@ mvars == <<cvars, fv>>
 
 Verbs == {"GET", "POST", "PUT", "DELETE", "PATCH"}
 UrlKinds == {"string", "int32", "int64", "uint32", "uint64", "sint32", "sfixed64", "fixed32", "bool", "float", "double"}
-Classes == {"ord", "zero", "min", "max", "big53", "nonascii", "urlreserved"}
+\* (padded: a string that begins and ends with white space - blanks, a tab, a no-break space - which is part of the value)
+Classes == {"ord", "zero", "min", "max", "big53", "nonascii", "urlreserved", "padded"}
 \* (the last two carry a JSON-mapping annotation, int64_encoding NUMBER: the body then has a number where proto3
 \* JSON has a string, and the values are beyond 2^53; the other annotations' wire forms are C04 / C05 / C14's)
 BodyShapes == {"string", "int64", "msg", "rep", "map", "opt", "enum", "bytes", "double", "oneof", "ts",
@@ -23,7 +24,7 @@ Ctypes == {"json", "proto", "octet"}
 \* config at all (route derived from package and method name, verb POST, no URL-bound fields)
 Routes == {"explicit", "default"}
 Cases == {[verb |-> v, kind |-> k, pcls |-> pc, qcls |-> qc, bshape |-> bs, bcls |-> bc, ctype |-> ct, handler |-> h, route |-> "explicit"] :
-            v \in Verbs, k \in UrlKinds, pc \in Classes \ {"zero"}, qc \in {"ord", "zero", "max", "urlreserved"},
+            v \in Verbs, k \in UrlKinds, pc \in Classes \ {"zero"}, qc \in {"ord", "zero", "max", "urlreserved", "padded"},
             bs \in BodyShapes, bc \in {"ord", "zero", "max"}, ct \in Ctypes, h \in {"ok"}}
 DefaultCases == {[verb |-> "POST", kind |-> "string", pcls |-> "ord", qcls |-> "ord", bshape |-> bs, bcls |-> bc, ctype |-> ct, handler |-> "ok", route |-> "default"] :
                    bs \in BodyShapes, bc \in {"ord", "zero", "max"}, ct \in Ctypes}
